@@ -29,6 +29,9 @@ type solverSpec struct {
 var solvers = []solverSpec{
 	{"z3-new-5.1.0", func(f string, t int) []string { return []string{"z3-new", fmt.Sprintf("-T:%d", t), f} }},
 	{"z3-4.8.12", func(f string, t int) []string { return []string{"/usr/bin/z3", fmt.Sprintf("-T:%d", t), f} }},
+	{"z3-new-5.1.0-arith2", func(f string, t int) []string {
+		return []string{"z3-new", fmt.Sprintf("-T:%d", t), "smt.arith.solver=2", f}
+	}},
 	{"cvc5-1.0", func(f string, t int) []string {
 		return []string{"cvc5", fmt.Sprintf("--tlimit=%d", t*1000), "--produce-models", f}
 	}},
@@ -59,12 +62,26 @@ func parseVerdict(out string) string {
 // (unsat/sat) wins and the rest are killed.  If all is true every solver is
 // run to completion (cross-solver agreement in the thorough tier).
 func raceSolvers(dir, name, script string, timeoutS int, all bool) (best SolverResult, every []SolverResult) {
+	return raceSolversStop(dir, name, script, timeoutS, all, nil)
+}
+
+// raceSolversStop is raceSolvers with an external stop signal.
+func raceSolversStop(dir, name, script string, timeoutS int, all bool, stop <-chan struct{}) (best SolverResult, every []SolverResult) {
 	file := filepath.Join(dir, smtName(name)+".smt2")
 	if err := os.WriteFile(file, []byte(script), 0o644); err != nil {
 		return SolverResult{Verdict: "error", Output: err.Error()}, nil
 	}
 	ctx, cancel := context.WithCancel(context.Background())
 	defer cancel()
+	if stop != nil {
+		go func() {
+			select {
+			case <-stop:
+				cancel()
+			case <-ctx.Done():
+			}
+		}()
+	}
 	resCh := make(chan SolverResult, len(solvers))
 	var wg sync.WaitGroup
 	for _, s := range solvers {
